@@ -57,6 +57,35 @@ theorem pass_step (cost : Pid → Rat) (rem : Rat) (p : Pid) (ps : List Pid) :
   rw [Greedy.pass]
   simp only [decide_eq_true_eq]
 
+/-- the WHOLE selection loop of the fast path (statement-level leaf `Gen.C03.passLoop`, regenerated from the `for project in
+    ordered_projects` loop): run on the ordered projects with their costs it appends exactly the projects the model's `pass`
+    takes, in the same order, to whatever was selected before -/
+theorem passLoop (cost : Pid → Rat) : ∀ (ps : List Pid) (sel : List Nat) (rem : Rat),
+    (Gen.C03.passLoop sel rem (ps.map (fun p => (p, cost p)))).1 = sel ++ Greedy.pass cost rem ps
+  | [], sel, rem => by simp [Gen.C03.passLoop, Greedy.pass]
+  | p :: ps, sel, rem => by
+    rw [List.map_cons, Gen.C03.passLoop, Greedy.pass]
+    by_cases h : cost p ≤ rem
+    · simp only [h, decide_true, if_true]
+      rw [passLoop cost ps (sel ++ [p]) (rem - cost p)]
+      simp
+    · simp only [h, decide_false, if_false, Bool.false_eq_true]
+      exact passLoop cost ps sel rem
+
+/-- … and the budget it ends with is what the selected projects leave of the budget it started with -/
+theorem passLoop_remaining (cost : Pid → Rat) : ∀ (ps : List Pid) (sel : List Nat) (rem : Rat),
+    (Gen.C03.passLoop sel rem (ps.map (fun p => (p, cost p)))).2 = rem - costOf cost (Greedy.pass cost rem ps)
+  | [], sel, rem => by simp [Gen.C03.passLoop, Greedy.pass, costOf, sumOver]
+  | p :: ps, sel, rem => by
+    rw [List.map_cons, Gen.C03.passLoop, Greedy.pass]
+    by_cases h : cost p ≤ rem
+    · simp only [h, decide_true, if_true]
+      rw [passLoop_remaining cost ps (sel ++ [p]) (rem - cost p)]
+      simp only [costOf, sumOver]
+      ring
+    · simp only [h, decide_false, if_false, Bool.false_eq_true]
+      exact passLoop_remaining cost ps sel rem
+
 /-- the pass starts with `instance.budget_limit - total_cost(budget_allocation)` -/
 theorem passInitialRemaining (score : Pid → Rat) (I : Inst) (init : List Pid)
     (order : List Pid → Except Err (List Pid)) :
